@@ -12,10 +12,10 @@ import (
 	"bufio"
 	"context"
 	"encoding/json"
+	"errors"
 	"fmt"
 	"math/rand"
 	"os"
-	"errors"
 	"path/filepath"
 	"sort"
 	"strconv"
@@ -81,6 +81,9 @@ func vTag(p string, n int) string {
 
 type vUniverse struct {
 	Req map[string][]string `json:"req"`
+	// pre-release nodes whose tag sits on the commit of the release they lead to (a release
+	// candidate that was promoted as it was): one commit, two tags
+	Cotag []string `json:"cotag,omitempty"`
 }
 
 type vCase struct {
@@ -214,6 +217,20 @@ func vDialer(u *vUniverse) testDialer {
 			}
 		}
 		refs[dir+"/"+m.Version] = strconv.Itoa(i + 1)
+	}
+	for _, c := range u.Cotag {
+		cp, ck := vSplit(c)
+		rel := cp + "/" + strconv.Itoa((ck/10+1)*10)
+		if _, ok := u.Req[rel]; !ok {
+			continue
+		}
+		cm, rm := vModule(c), vModule(rel)
+		cdir := strings.TrimPrefix(project.TrimPathVersion(cm.Path), vRepo+"/")
+		rdir := strings.TrimPrefix(project.TrimPathVersion(rm.Path), vRepo+"/")
+		if rev, ok := refs[rdir+"/"+rm.Version]; ok {
+			refs[cdir+"/"+cm.Version] = rev
+			refs[vRefName(cp, ck)] = rev
+		}
 	}
 	refs["main"] = strconv.Itoa(len(nodes))
 	return testDialer{repos: map[string]*testRepository{vRepo: {path: vRepo, defaultRef: "main", refs: refs, head: testRevisions(revs)}}}
